@@ -2345,7 +2345,18 @@ def ext_call(it, dotted, args, kw):
     if name in ("np.sum", "np.nansum"):
         return vec_method(it, args[0], "sum", [], {}) if isinstance(args[0], Vec) else Opaque(name)
     if name in ("np.median", "np.nanmedian"):
-        return vec_method(it, args[0], "median", [], {}) if isinstance(args[0], Vec) else Opaque(name)
+        a0 = args[0]
+        if isinstance(a0, (list, tuple)) and len(args) == 1 and not kw:
+            if not a0:
+                return NAN                                   # the median of nothing is NaN (numpy warns and returns nan)
+            lv = _lits(list(a0))
+            if lv is not None:
+                srt = sorted(lv)
+                n_ = len(srt)
+                return srt[n_ // 2] if n_ % 2 else Fr(srt[n_ // 2 - 1] + srt[n_ // 2], 2)
+        if isinstance(a0, Vec) and a0.exact and not a0.v and len(args) == 1 and not kw:
+            return NAN
+        return vec_method(it, a0, "median", [], {}) if isinstance(a0, Vec) else Opaque(name)
     if name == "np.log2":
         return _np_elem(f_log2)(it, args[0])
     if name == "np.log":
